@@ -19,7 +19,7 @@ var fsWriters = map[string]bool{"os.OpenFile": true, "os.Create": true, "os.Writ
 
 func checkC20(r *Run) propMeta {
 	meta := propMeta{Level: "other",
-		Explanation: "Decides the structural clauses that make hostile input harmless: (R1) verify-before-mutate — in Load every call that can write nodes or relationships to the target database is preceded, as an error-gated top-level step, by manifest reading/validation, verification of every fragment (with checksum verification switched on) and the empty-target check; (R2) path taint — no file-system write primitive reachable from the unpack/load entry points receives a path derived from tar header fields except through sanitizeArchivePath; (R3) regular files only — the extraction loop rejects every Typeflag other than regular, duplicates and negative sizes before any file is created, and files are created with O_EXCL; (R4) staging — every exported entry point that can reach extraction extracts into a private staging directory that is removed on every error and promoted only after validateExtractedCollection; (R5) envelope — the AEAD additional data binds header hash, frame index and frame type, end-of-stream is accepted only after an empty final frame followed by EOF, the stream is drained after the tar ends, and no error of the crypto/tar/json decoders is discarded. NOT decided: cryptographic strength, byte-exact mutation coverage, the sanitizer's own completeness beyond the checks it visibly performs.",
+		Explanation: "Decides the structural clauses that make hostile input harmless: (R1) verify-before-mutate — in Load every call that can write nodes or relationships to the target database is preceded, as an error-gated top-level step, by manifest reading/validation, verification of every fragment (with checksum verification switched on) and the empty-target check; the preflight's and the load pass's source-ID indexes are constructed per graph; (R2) path taint — no file-system write primitive reachable from the unpack/load entry points receives a path derived from tar header fields except through sanitizeArchivePath; (R3) regular files only — the extraction loop rejects every Typeflag other than regular, duplicates and negative sizes before any file is created, and files are created with O_EXCL; (R4) staging — every exported entry point that can reach extraction extracts into a private staging directory that is removed on every error and promoted only after validateExtractedCollection; (R5) envelope — the AEAD additional data binds header hash, frame index and frame type, the reader's header hash is a digest of the header bytes as read from the stream (the io.ReadFull buffer), never of a re-encoding, end-of-stream is accepted only after an empty final frame followed by EOF, the stream is drained after the tar ends, and no error of the crypto/tar/json decoders is discarded. NOT decided: cryptographic strength, byte-exact mutation coverage, the sanitizer's own completeness beyond the checks it visibly performs.",
 		Assumptions: []string{"HPKE/AEAD Open fails on any change to ciphertext or additional data (library contract)", "archive/tar yields each entry's header before its content"},
 		TrustedBase: []string{"go/types", "this analyser"}}
 	if err := r.Load("./retriever/..."); err != nil {
@@ -33,10 +33,12 @@ func checkC20(r *Run) propMeta {
 	checkRegularOnly(r, p, decls)
 	checkStaging(r, p, cg)
 	checkEnvelope(r, p, cg, decls)
-	r.Floor("C20-R1-verify-before-mutate", 4)
+	checkHeaderHashRaw(r, p, decls)
+	checkPerGraphResolver(r, p)
+	r.Floor("C20-R1-verify-before-mutate", 6)
 	r.Floor("C20-R2-path-taint", 3)
 	r.Floor("C20-R3-regular-only", 4)
-	r.Floor("C20-R5-envelope", 6)
+	r.Floor("C20-R5-envelope", 7)
 	return meta
 }
 
@@ -964,4 +966,229 @@ func typeflagAllowList(cond ast.Expr) (allowed []string, pure bool) {
 	}
 	walk(cond)
 	return
+}
+
+// checkHeaderHashRaw (R5, header clause): the frames are bound to the header through a digest in the AAD.  On the
+// reading side that digest must be computed over the header bytes exactly as they were read from the stream.  A digest
+// of the re-encoded, parsed header is invariant under everything the JSON decoder is lenient about (key case,
+// whitespace, unknown or duplicate keys), so a header that was modified in those ways still authenticates.
+func checkHeaderHashRaw(r *Run, p *packages.Package, decls map[string]*ast.FuncDecl) {
+	info := p.TypesInfo
+	const rule = "C20-R5-envelope"
+	fd := decls["newEncryptedArchiveReader"]
+	if fd == nil {
+		r.Undecide("C20-R5: newEncryptedArchiveReader not found")
+		return
+	}
+	// rawIn: is `v` (an identifier in function f) a byte slice that f filled with io.ReadFull?
+	filledByReadFull := func(f *ast.FuncDecl, obj types.Object) bool {
+		found := false
+		ast.Inspect(f.Body, func(n ast.Node) bool {
+			call, ok := n.(*ast.CallExpr)
+			if !ok || len(call.Args) != 2 {
+				return true
+			}
+			if fn := calleeOf(info, call); fn != nil && funcFullName(fn) == "io.ReadFull" {
+				if id, ok := ast.Unparen(call.Args[1]).(*ast.Ident); ok && info.Uses[id] == obj {
+					found = true
+				}
+			}
+			return true
+		})
+		return found
+	}
+	// definition of an identifier inside f: the single RHS expression and, for multi-value calls, the result index
+	defOf := func(f *ast.FuncDecl, obj types.Object) (ast.Expr, int) {
+		var rhs ast.Expr
+		idx := -1
+		ast.Inspect(f.Body, func(n ast.Node) bool {
+			as, ok := n.(*ast.AssignStmt)
+			if !ok {
+				return true
+			}
+			for i, l := range as.Lhs {
+				if id, ok := l.(*ast.Ident); ok && (info.Defs[id] == obj || (as.Tok == token.ASSIGN && info.Uses[id] == obj)) {
+					if len(as.Rhs) == len(as.Lhs) {
+						rhs, idx = as.Rhs[i], -1
+					} else if len(as.Rhs) == 1 {
+						rhs, idx = as.Rhs[0], i
+					}
+				}
+			}
+			return true
+		})
+		return rhs, idx
+	}
+	var hashArg ast.Expr
+	var hashPos token.Pos
+	var why string
+	ast.Inspect(fd.Body, func(n ast.Node) bool {
+		kv, ok := n.(*ast.KeyValueExpr)
+		if !ok {
+			return true
+		}
+		k, ok := kv.Key.(*ast.Ident)
+		if !ok || k.Name != "headerHash" {
+			return true
+		}
+		hashPos = kv.Pos()
+		v := ast.Unparen(kv.Value)
+		if id, ok := v.(*ast.Ident); ok {
+			if rhs, _ := defOf(fd, info.Uses[id]); rhs != nil {
+				v = ast.Unparen(rhs)
+			}
+		}
+		if call, ok := v.(*ast.CallExpr); ok {
+			if fn := calleeOf(info, call); fn != nil && strings.HasPrefix(funcFullName(fn), "crypto/sha256.Sum") && len(call.Args) == 1 {
+				hashArg = call.Args[0]
+			} else if fn != nil {
+				why = "it is the result of " + fn.Name() + ", which does not hash one of its byte-slice arguments"
+				// a helper that hashes one of its parameters: follow the corresponding argument
+				if hd := decls[fn.Name()]; hd != nil && hd.Body != nil && hd.Type.Params != nil {
+					pidx := map[types.Object]int{}
+					i := 0
+					for _, pl := range hd.Type.Params.List {
+						for _, nm := range pl.Names {
+							pidx[info.Defs[nm]] = i
+							i++
+						}
+					}
+					ast.Inspect(hd.Body, func(m ast.Node) bool {
+						if hc, ok := m.(*ast.CallExpr); ok && len(hc.Args) == 1 {
+							if hf := calleeOf(info, hc); hf != nil && strings.HasPrefix(funcFullName(hf), "crypto/sha256.Sum") {
+								if aid, ok := ast.Unparen(hc.Args[0]).(*ast.Ident); ok {
+									if k, isParam := pidx[info.Uses[aid]]; isParam && k < len(call.Args) {
+										hashArg = call.Args[k]
+									}
+								}
+							}
+						}
+						return true
+					})
+				}
+			}
+		}
+		return true
+	})
+	construct := "newEncryptedArchiveReader:header-hash-over-wire-bytes"
+	if hashPos == token.NoPos {
+		r.Undecide("C20-R5: no headerHash field in the reader literal of newEncryptedArchiveReader")
+		return
+	}
+	raw := false
+	if hashArg != nil {
+		if id, ok := ast.Unparen(hashArg).(*ast.Ident); ok {
+			obj := info.Uses[id]
+			if filledByReadFull(fd, obj) {
+				raw = true
+			} else if rhs, idx := defOf(fd, obj); rhs != nil && idx >= 0 {
+				if call, ok := ast.Unparen(rhs).(*ast.CallExpr); ok {
+					if callee := calleeOf(info, call); callee != nil {
+						for name, cd := range decls {
+							if name != callee.Name() || cd.Body == nil {
+								continue
+							}
+							all, any := true, false
+							ast.Inspect(cd.Body, func(n ast.Node) bool {
+								if _, isLit := n.(*ast.FuncLit); isLit {
+									return false
+								}
+								ret, ok := n.(*ast.ReturnStmt)
+								if !ok || idx >= len(ret.Results) {
+									return true
+								}
+								res := ast.Unparen(ret.Results[idx])
+								if rid, ok := res.(*ast.Ident); ok {
+									if _, isNil := info.Uses[rid].(*types.Nil); isNil {
+										return true // error exit
+									}
+									any = true
+									if !filledByReadFull(cd, info.Uses[rid]) {
+										all = false
+									}
+								} else {
+									all = false
+								}
+								return true
+							})
+							raw = all && any
+							if !raw {
+								why = "the bytes returned by " + callee.Name() + " are not the buffer it filled with io.ReadFull"
+							}
+						}
+					}
+				}
+			} else {
+				why = "the hashed value is not a buffer filled by io.ReadFull"
+			}
+		} else {
+			why = "the hashed value is " + exprString(r.Fset, hashArg)
+		}
+	}
+	if raw {
+		r.Pass(rule, construct, hashPos, "the digest in the frames' additional data is taken over the header bytes as read from the stream (io.ReadFull buffer)")
+	} else {
+		r.Fail(rule, construct, hashPos, "the reader's header digest is not computed over the bytes read from the stream (%s): a digest of the re-encoded header is blind to every change the JSON decoder tolerates (key case, whitespace, unknown keys), so a modified header still authenticates all frames", why)
+	}
+}
+
+// checkPerGraphResolver (R1, scoping clause): source IDs are unique per graph, not per dump.  The preflight that has to
+// reject a corrupt dump before anything is written resolves edge endpoints against the nodes of the same graph only if
+// its ID index is constructed per graph, like the load pass does.  An index that lives across graphs lets an edge that
+// points at a node of an earlier graph pass preflight; the load pass, whose index is per graph, then fails after it
+// has already written.
+func checkPerGraphResolver(r *Run, p *packages.Package) {
+	info := p.TypesInfo
+	n := 0
+	for _, f := range p.Syntax {
+		for _, d := range f.Decls {
+			fd, ok := d.(*ast.FuncDecl)
+			if !ok || fd.Body == nil || fd.Name.Name == "newNodeIDResolver" {
+				continue
+			}
+			var stack []ast.Node
+			ast.Inspect(fd.Body, func(x ast.Node) bool {
+				if x == nil {
+					stack = stack[:len(stack)-1]
+					return true
+				}
+				stack = append(stack, x)
+				call, ok := x.(*ast.CallExpr)
+				if !ok {
+					return true
+				}
+				fn := calleeOf(info, call)
+				if fn == nil || fn.Name() != "newNodeIDResolver" || fn.Pkg() != p.Types {
+					return true
+				}
+				n++
+				construct := funcDeclName(fd) + ":newNodeIDResolver"
+				perGraph := ""
+				// a parameter of type GraphManifest: the function runs for one graph
+				if fd.Type.Params != nil {
+					for _, pl := range fd.Type.Params.List {
+						if namedName(info.TypeOf(pl.Type)) == "GraphManifest" {
+							perGraph = "the enclosing function handles one GraphManifest"
+						}
+					}
+				}
+				for _, anc := range stack {
+					if rs, ok := anc.(*ast.RangeStmt); ok && call.Pos() >= rs.Body.Pos() && call.End() <= rs.Body.End() {
+						if sel, ok := ast.Unparen(rs.X).(*ast.SelectorExpr); ok && sel.Sel.Name == "Graphs" {
+							perGraph = "constructed inside the loop over " + exprString(r.Fset, rs.X)
+						}
+					}
+				}
+				if perGraph != "" {
+					r.Pass("C20-R1-verify-before-mutate", construct, call.Pos(), "the source-ID index is per graph: %s", perGraph)
+				} else {
+					r.Fail("C20-R1-verify-before-mutate", construct, call.Pos(), "the source-ID index is constructed outside the per-graph scope: IDs of earlier graphs stay resolvable, so the preflight accepts an edge that points into another graph and the dump is rejected only after the load pass has written nodes and relationships")
+				}
+				return true
+			})
+		}
+	}
+	if n < 2 {
+		r.Undecide("C20-R1: expected the preflight and the load pass to construct a nodeIDResolver, found %d construction sites", n)
+	}
 }
